@@ -3,7 +3,7 @@ import TarpcModel.Server.Run
 /-!
 # C06 / C04 (server side) — the limiter's early exit is taken at the limit only
 
-Property examples only (no general theorem yet, see below).  `MaxRequests::poll_next` returns on `poll_ready → Pending`
+Property examples (the general theorem is in `Props/C06LimiterExitMon.lean`).  `MaxRequests::poll_next` returns on `poll_ready → Pending`
 *without polling the inner channel* only while the channel is at its limit (finding F7: cancellations and expirations
 stay unprocessed meanwhile; the monitors mark such polls `stalled` and judge them by their own clauses).  The monitors
 recognise the exit by its shape — a top-level poll of the request stream in which `poll_ready → Pending` is followed at
@@ -12,10 +12,9 @@ the count the poll began with (`lastCounts`: what the previous channel poll repo
 channel polls only): at or above the limit the poll is `stalled` as before; below it the book sets `belowLimitStall`,
 and `checkC06Stall` rejects the trace at the poll's `ret` with a message of its own (not the known finding's).
 
-Not proved in general: that the clause never fires on traces of the model (there the exit sits behind the
-`in_flight ≥ limit` test of `limitedPollNextLegacy` / `limitedPollNextFixed`, and the count can only have fallen since
-the poll began unless a request was just accepted, which ends the poll or is throttled away again); the examples below
-check it on scripts with the limiter at and below its limit and the sink not ready.
+The general theorem — the clause never fires on a trace of the model, for every configuration and script — is
+`C06S_limiter_exit_accepts` in `Props/C06LimiterExitMon.lean` (proof: `Lemmas/ServerStallWalk.lean`); the examples below
+exercise the clause on hand-written event lists and on scripts with the limiter at and below its limit.
 -/
 namespace TarpcModel.Server
 open TarpcModel
